@@ -281,7 +281,8 @@ const void *Kernel::file_new(int fd) {
 uint8_t Kernel::byte_at(int child_uid, int stream, uint64_t off) const {
   uint64_t x = off * 0x9e3779b97f4a7c15ull + (uint64_t) child_uid * 0xbf58476d1ce4e5b9ull + (uint64_t) stream * 0x94d049bb133111ebull + salt;
   x ^= x >> 29; x *= 0xbf58476d1ce4e5b9ull; x ^= x >> 32;
-  return (uint8_t) x;
+  uint8_t b = (uint8_t) x;
+  return b ? b : 1;  // never NUL: the C string sink accumulates C strings
 }
 
 // ------------------------------------------------------------------ log
